@@ -41,7 +41,7 @@ RUN_TIMEOUT = 20          # hang detector: a normal run takes 10-30 ms
 PAR = 10
 AS_LIMIT = 3 << 30        # address-space limit of the plain build (bytes)
 ASAN_OPTS = ("detect_leaks=0:allocator_may_return_null=1:max_allocation_size_mb=1024:soft_rss_limit_mb=2048:"
-             "hard_rss_limit_mb=3072:handle_abort=0:symbolize=1")
+             "hard_rss_limit_mb=3072:handle_abort=1:symbolize=1")
 UBSAN_OPTS = "print_stacktrace=1"
 ALL_GROUPS = ["drop", "number", "name", "move", "retarget", "header", "constant", "include", "doc", "argv"]
 INVARIANTS = ["DepthOK", "CaseWellFormed", "PairOK", "ScopeNotEmpty"]
@@ -68,6 +68,8 @@ def tlc_base(job):
     text = gg.serialize(doc)
     ntok = len(gg.tokens(text))
     k = knobs(tier, name)
+    if os.environ.get("VERIF_C09_GROUPS"):       # development aid: restrict the action groups (off by default)
+        k = dict(k, groups=[g for g in k["groups"] if g in os.environ["VERIF_C09_GROUPS"].split(",")])
     body = "DocDef == %s\nGroupsDef == {%s}\n" % (gg.doc_tla(rows), ", ".join(sch.tla_str(g) for g in k["groups"]))
     cfg = ("CONSTANTS\n Doc <- DocDef\n BaseName = %s\n NTok = %d\n Groups <- GroupsDef\n PerClass = %d\n LexPer = %d\n NamePer = %d\n"
            " Seed = %d\n PairStride = %d\n TruncStep = %d\n MaxDepth = 2\nINIT Init\nNEXT Next\nVIEW View\nCONSTRAINT Emit\n" % (
@@ -113,25 +115,34 @@ def san_env(binary, shim):
     return env
 
 
+# (with allocator_may_return_null ASan only WARNS about an allocation it refuses - the program then sees a null /
+# std::bad_alloc like under any memory limit; that is not a report)
 _SAN_REPORT = re.compile(r"(ERROR: AddressSanitizer|ERROR: LeakSanitizer|runtime error:|AddressSanitizer:DEADLYSIGNAL|"
-                         r"AddressSanitizer: (?:CHECK failed|hard rss limit|soft rss limit|failed to allocate|requested allocation size)|"
-                         r"UndefinedBehaviorSanitizer)")
+                         r"AddressSanitizer: (?:CHECK failed|hard rss limit)|ERROR: UndefinedBehaviorSanitizer)")
 
 
 def ub_event(stderr):
+    """{"ev":"ub","kind","what","where"} from a sanitizer report on stderr, else None.  With handle_abort=1 ASan also reports
+    abort() (libstdc++ assertion, assert(), std::terminate) with a stack: kind "abort" - the process then ends by ASan's exit."""
     m = _SAN_REPORT.search(stderr)
     if not m:
         return None
     kind = "ubsan" if ("runtime error:" in m.group(0) or "Undefined" in m.group(0)) else "asan"
     what = ""
     if kind == "asan":
-        w = re.search(r"AddressSanitizer: ([a-zA-Z-]+(?: [a-z-]+)?)", stderr)
-        what = w.group(1).strip() if w else ""
+        w = re.search(r"AddressSanitizer: ([^\n]{0,120})", stderr)
+        line = w.group(1) if w else ""
+        if re.search(r"out of memory|allocation size|rss limit|failed to allocate", line):
+            what = "out-of-memory"
+        elif line.startswith("ABRT"):
+            kind, what = "abort", abort_reason(stderr) or "abort"
+        else:
+            what = re.sub(r"\s+(on|in)\b.*$", "", line).strip()
+            what = re.sub(r"0x[0-9a-f]+|\d+", "N", what)[:60]
     else:
         w = re.search(r"runtime error: ([^\n]{0,80})", stderr)
         what = re.sub(r"0x[0-9a-f]+|\d+", "N", w.group(1)) if w else ""
-    fn = re.search(r"#\d+ 0x[0-9a-f]+ in (sbepp::sbeppc::[\w:]+)", stderr)
-    what = re.sub(r"\s+on$", "", what)
+    fn = re.search(r"#\d+ 0x[0-9a-f]+ in ((?:sbepp::sbeppc::|main\b|\(anonymous namespace\)::)[\w:~]*)", stderr)
     where = fn.group(1) if (fn and "stack-overflow" not in what) else ""
     return {"ev": "ub", "kind": kind, "what": what, "where": where}
 
@@ -226,17 +237,19 @@ def run_files(binary, kind, files, argv_tokens, workdir, run_id, schema, asuser=
         args = ["--output-dir", "../out", "main.xml"]
     else:
         args = [gg.to_bytes(fx.subst(t, second_xml)) for t in argv_tokens]
+    # the directory the run was told to write to (the shim watches it): the last @out.. fixture on the
+    # command line, else the value after the last --output-dir, else the current directory
     outd = fx.outd
-    for i, a in enumerate(args[:-1]):           # the shim watches the directory the run was told to write to
-        if a in ("--output-dir", b"--output-dir"):
-            cand = args[i + 1]
-            cand = cand.decode("utf-8", "surrogateescape") if isinstance(cand, bytes) else cand
-            if "\0" not in cand:
-                outd = os.path.normpath(os.path.join(fx.ind, cand))
-    if argv_tokens is not None and not any(a in ("--output-dir", b"--output-dir") for a in args):
-        outd = fx.ind                             # default: the current directory
+    if argv_tokens is not None:
+        outs = [i for i, t in enumerate(argv_tokens) if "@out" in t]
+        opts = [i for i, a in enumerate(args[:-1]) if a in ("--output-dir", b"--output-dir")]
+        cand = args[outs[-1]] if outs else args[opts[-1] + 1] if opts else b""
+        cand = cand.decode("utf-8", "surrogateescape") if isinstance(cand, bytes) else cand
+        cand = re.sub(r"^--output-dir=", "", cand)
+        outd = os.path.normpath(os.path.join(fx.ind, cand.replace("\0", "")))
     r = sr.Run()
     r.id, r.schema, r.init, r.cwd = run_id, schema, "fresh", fx.ind
+    r.root_existed = os.path.isdir(outd)
     r.argv = [binary] + args
     r.env = {"LD_PRELOAD": shim, "VERIF_IO_ROOT": outd, "VERIF_IO_INROOT": fx.ind, "VERIF_IO_LOG": logp, "SBEPPC_VERIF_TRACE": logp}
     if outd == fx.ind:
@@ -357,6 +370,16 @@ class Plan:
 EMPTY = Plan("rejected", [], 0, {})
 
 
+def without_root(ops):
+    """the same plan for an output directory that is already there: no mkdir of the root"""
+    out = []
+    for op in ops:
+        if op["call"] == "mkdir" and op["path"] == ".":
+            continue
+        out.append(dict(op, dir="" if op["dir"] == "." else op["dir"]))
+    return out
+
+
 def attach_plan(r, plans, base_plan=None):
     """Transliteration rule (no expectation is computed here):
        exit 0        -> the plan is the sequence of output calls the run made itself (SbeppcTrace then demands that it is
@@ -368,9 +391,7 @@ def attach_plan(r, plans, base_plan=None):
     if r.status == 0 and r.signal == 0:
         ops, nin = sr.plan_from_events(r.logged)
         if not any(op["call"] == "mkdir" and op["path"] == "." for op in ops):
-            for op in ops:          # the output directory itself already existed: nothing to create before its children
-                if op["dir"] == ".":
-                    op["dir"] = ""
+            ops = without_root(ops)
         key = "self-" + vlib.sha(json.dumps(ops), str(nin))
         if key not in plans:
             plans[key] = Plan(key, ops, nin, None)
@@ -378,6 +399,8 @@ def attach_plan(r, plans, base_plan=None):
         files = dict(r.tree)
     else:
         pl = base_plan or EMPTY
+        if base_plan is not None and r.root_existed:
+            pl = Plan(base_plan.name + "-root-exists", without_root(base_plan.ops), base_plan.nin, base_plan.files)
         plans.setdefault(pl.name, pl)
         files = pl.files or {}
     finish_events(r, pl.name)
@@ -386,6 +409,23 @@ def attach_plan(r, plans, base_plan=None):
 
 
 # -------------------------------------------------------------- validate ---
+
+def trace_key(r):
+    """two runs with the same plan and the same events are the same trace"""
+    return vlib.sha(r.schema, json.dumps(r.events[1:], sort_keys=True))
+
+
+def distinct_traces(runs):
+    """-> (representatives, {representative id: [runs with that trace]})"""
+    groups, reps = {}, []
+    for r in runs:
+        k = trace_key(r)
+        if k not in groups:
+            groups[k] = []
+            reps.append(r)
+        groups[k].append(r)
+    return reps, {g[0].id: g for g in groups.values()}
+
 
 def validate(batch):
     """one TLC run of SbeppcTrace over a batch of runs; returns (rejections, TLCResult)"""
@@ -403,7 +443,7 @@ def make_batches(runs, plans, wd, prefix):
     cur, lines, names = [], 0, set()
     n = 0
     for r in long_:
-        if cur and (lines + len(r.events) > 4000 or len(names | {r.schema}) > 8):
+        if cur and (lines + len(r.events) > 12000 or len(names | {r.schema}) > 12):
             batches.append(("%sl%03d" % (prefix, n), cur, plans, wd))
             n += 1
             cur, lines, names = [], 0, set()
@@ -420,27 +460,26 @@ def classify(r, rec):
     rejection itself is TLC's).  -> (what, description)"""
     ev = rec["event"]
     left = sorted(r.tree)[:6]
-    if ev["ev"] == "ub":
-        what = "%s(%s%s)" % (ev["kind"], ev["what"], (" in " + ev["where"]) if ev["where"] else "")
-    elif ev["ev"] == "exit" and ev["signal"] == -1:
+    # how the process ended, if not by a normal exit without a sanitizer report (observed facts name the class,
+    # wherever in the episode TLC stopped: a sanitizer's symbolizer, for one, opens files after the fact)
+    if r.signal == -1:
         what = "timeout"
-    elif ev["ev"] == "exit" and ev["signal"] > 0:
+    elif r.signal > 0:
         why = abort_reason(r.stderr)
-        what = "%s(sig=%d)%s" % ("abort" if ev["signal"] == 6 else "crash", ev["signal"], (":" + why) if why else "")
+        what = "%s(sig=%d)%s" % ("abort" if r.signal == 6 else "crash", r.signal, (":" + why) if why else "")
+    elif r.ub and r.ub["kind"] == "abort":
+        what = "abort(sig=6):%s%s" % (r.ub["what"], (" in " + r.ub["where"]) if r.ub["where"] else "")
+    elif r.ub:
+        what = "%s(%s%s)" % (r.ub["kind"], r.ub["what"], (" in " + r.ub["where"]) if r.ub["where"] else "")
     elif ev["ev"] == "exit" and ev["status"] != 0 and not rec["diag"]:
         what = "no-diag"
     elif ev["ev"] == "exit" and ev["status"] == 0:
         what = "exit0-" + ("after-failed-call" if rec["failed"] else "plan-not-finished")
+    elif ev["ev"] == "exit":
+        what = "exit%d-not-allowed" % ev["status"]
     elif ev["ev"] == "sys" and ev.get("cls") == "out":
         # an output call the machine does not allow here
-        if r.signal > 0:
-            why = abort_reason(r.stderr)
-            what = "%s(sig=%d)%s+leftover" % ("abort" if r.signal == 6 else "crash", r.signal, (":" + why) if why else "")
-        elif r.signal == -1:
-            what = "timeout+leftover"
-        elif r.ub:
-            what = "%s(%s%s)+leftover" % (r.ub["kind"], r.ub["what"], (" in " + r.ub["where"]) if r.ub["where"] else "")
-        elif r.status != 0:
+        if r.status != 0:
             what = "leftover" if r.tree else "output-call-on-rejection"
         else:
             what = "output-before-" + ("named" if rec["phase"] not in ("Named", "Emitting") else "plan")
@@ -452,6 +491,8 @@ def classify(r, rec):
         what = "phase-order/" + ev["name"]
     else:
         what = "rejected-at-" + ev["ev"]
+    if (r.signal != 0 or r.ub) and r.tree:
+        what += "+leftover"
     desc = ("run %s (%s build) is not a behaviour of Sbeppc: stuck at trace line %d, event %s; spec state phase=%s nio=%s failed=%s diag=%s; "
             "wait status: exit %s signal %s%s; files left: %s\n  command: cd <in> && %s\n  stdout: %s\n  stderr: %s" % (
                 r.id, r.kind, rec["line"], json.dumps(ev)[:200], rec["phase"], rec["nio"], rec["failed"], rec["diag"],
@@ -501,18 +542,24 @@ def abnormal(r):
 _CTX = {}
 
 
-def _task(job):
-    """worker process: materialize one job, run it through both builds"""
-    c = _CTX
+def _prep(job):
+    """worker process: materialize one job"""
     if job.files is None:
-        materialize(job, c["base_docs"])
-    out = []
-    for kind in ("san", "plain"):
-        r = execute(job, kind, c["bins"][kind], c["rdir"], c["second_xml"])
-        if not r.not_run and abnormal(r):
-            r.second = execute(job, kind, c["bins"][kind], c["rdir"], c["second_xml"], tag="again-")
-        out.append(r)
-    return job, out
+        materialize(job, _CTX["base_docs"])
+    return job
+
+
+def _task(t):
+    """worker process: one job through one build"""
+    job, kind = t
+    c = _CTX
+    r = execute(job, kind, c["bins"][kind], c["rdir"], c["second_xml"])
+    if not r.not_run and abnormal(r) and r.signal != -1:
+        r.second = execute(job, kind, c["bins"][kind], c["rdir"], c["second_xml"], tag="again-")
+    r.job = None        # (the caller has it)
+    if r.second is not None:
+        r.second.job = None
+    return r
 
 
 def _again(t):
@@ -521,7 +568,7 @@ def _again(t):
     return execute(job, kind, c["bins"][kind], c["rdir"], c["second_xml"], tag="again-")
 
 
-def pool_map(fn, items, chunk=8):
+def pool_map(fn, items, chunk=4):
     from concurrent.futures import ProcessPoolExecutor
     import multiprocessing
     with ProcessPoolExecutor(max_workers=PAR, mp_context=multiprocessing.get_context("fork")) as ex:
@@ -565,7 +612,7 @@ def case_record(r):
 
 def run(v, tier, seed):
     thorough = tier == "thorough"
-    wd = vlib.fresh_dir(os.path.join(vlib.WORK, "c09"))
+    wd = vlib.fresh_dir(os.path.join(vlib.WORK, "c09", "check"))
     rdir = os.path.join(wd, "runs")
     bins = {"san": vlib.build_sbeppc("san"), "plain": vlib.build_sbeppc("plain")}
     sr.build_shim()
@@ -593,7 +640,8 @@ def run(v, tier, seed):
             jobs.append(Job("%s-%05d" % (name, i), case_head(rec), label(rec), base=name, case=rec))
     v.part("tlc", wall_s=round(time.time() - t0, 1), bases=[n for n, _ in bs])
     vlib.log("C09: TLC generated %d cases in %.0f s" % (len(jobs), time.time() - t0))
-    jobs += corpus_jobs()
+    if os.environ.get("VERIF_C09_NOCORPUS") != "1":   # development aid
+        jobs += corpus_jobs()
     second_xml = sch.to_xml(gg.bases("quick")[0][1]).replace('package="c09"', 'package="c09second"')
 
     # ---- 2. the unedited bases: reference plans (and the proof that the set-up works) ----
@@ -618,18 +666,15 @@ def run(v, tier, seed):
     t1 = time.time()
     _CTX.update(base_docs=base_docs, bins=bins, rdir=rdir, second_xml=second_xml)
     public_libs(bins["plain"])
-    runs, done = [], []
+    jobs = pool_map(_prep, jobs, chunk=32)
     # (the slow cases - hangs - are spread by the seed, not clustered at the end)
-    order = list(jobs)
+    order = [(j, kind) for j in jobs for kind in ("san", "plain")]
     random.Random(seed).shuffle(order)
-    for job, rs in pool_map(_task, order):
-        done.append(job)
-        for r in rs:
-            r.job = job
-            if r.second is not None:
-                r.second.job = job
-            runs.append(r)
-    jobs = sorted(done, key=lambda j: j.jid)
+    runs = pool_map(_task, order)
+    for (j, kind), r in zip(order, runs):
+        r.job = j
+        if r.second is not None:
+            r.second.job = j
     distinct_inputs = len({j.key for j in jobs})
     vacuous = sum(1 for j in jobs if j.vac)
     not_run = [r for r in runs if r.not_run]
@@ -646,10 +691,15 @@ def run(v, tier, seed):
 
     # ---- 4. TLC judges the runs (SbeppcTrace), in batches ----------------------------
     t2 = time.time()
-    batches = make_batches(runs, plans, wd, "b")
+    reps, same = distinct_traces(runs)
+    batches = make_batches(reps, plans, wd, "b")
     results = vlib.parallel(batches, validate, nproc=PAR)
     tv_states = sum(res.distinct for _, res in results)
-    rejected = [rec for rej, _ in results for rec in rej]
+    rejected = []
+    for rej, _ in results:
+        for rec in rej:             # the verdict on a trace is the verdict on every run that produced it
+            for r in same[rec["rejected"]]:
+                rejected.append(dict(rec, rejected=r.id))
     byid = {r.id: r for r in runs}
     t_tv = time.time() - t2
     vlib.log("C09: %d batches validated in %.0f s, %d runs rejected" % (len(batches), t_tv, len(rejected)))
@@ -671,12 +721,14 @@ def run(v, tier, seed):
         plan_of(r2)
     rej2 = {}
     if again:
-        b2 = make_batches(again, plans, wd, "again")
+        reps2, same2 = distinct_traces(again)
+        b2 = make_batches(reps2, plans, wd, "again")
         for rej, res in vlib.parallel(b2, validate, nproc=PAR):
             tv_states += res.distinct
             for rec in rej:
-                rej2[rec["rejected"]] = rec
-    classes, unrepeated = {}, []
+                for r in same2[rec["rejected"]]:
+                    rej2[r.id] = dict(rec, rejected=r.id)
+    classes, unrepeated, dump = {}, [], []
     for (r, what, desc), r2 in zip(first, again):
         rec2 = rej2.get(r2.id)
         what2 = classify(r2, rec2)[0] if rec2 else "accepted"
@@ -685,7 +737,13 @@ def run(v, tier, seed):
             continue
         sig = "%s/%s/%s" % (r.job.head, r.kind, what)
         classes[sig] = classes.get(sig, 0) + 1
+        dump.append({"signature": sig, "desc": desc, "argv": case_record(r)["argv"]})
         v.violation(sig, desc, case_record(r))
+    vlib.write(os.path.join(wd, "alarms.json"), json.dumps(dump, indent=1))
+
+    vlib.write(os.path.join(wd, "runs.ndjson"), "".join(json.dumps(
+        {"case": r.job.head, "build": r.kind, "exit": r.status, "signal": r.signal, "ub": r.ub, "plan": r.schema, "left": len(r.tree),
+         "says": sr._ANSI.sub("", (r.stdout + r.stderr).strip().split("\n")[0])[:160]}) + "\n" for r in runs))
 
     # ---- 6. evidence -----------------------------------------------------------------
     per_action, triples, outcome = {}, set(), {}
@@ -708,7 +766,7 @@ def run(v, tier, seed):
     v.part("runs", executed=len(runs) + len(again) + 2 * len(base_docs), outcome=outcome, exec_wall_s=round(t_exec, 1),
            slowest_s=round(max(r.wall for r in runs), 2) if runs else 0, as_unprivileged_user=sum(1 for r in runs if getattr(r, "asuser", False)),
            running_as_root=os.geteuid() == 0)
-    v.part("trace_validation", batches=len(batches), lines=sum(len(r.events) for r in runs), plans=len(plans), tlc_states=tv_states,
+    v.part("trace_validation", batches=len(batches), lines=sum(len(r.events) for r in reps), distinct_traces=len(reps), runs=len(runs), plans=len(plans), tlc_states=tv_states,
            rejected_runs=len(rejected), repeated=sum(classes.values()), not_repeated=unrepeated[:20], wall_s=round(t_tv, 1),
            alarm_kinds=what_count)
     smp = []
